@@ -8,7 +8,8 @@ import Mathlib.Tactic.Ring
 import Mathlib.Tactic.Module
 
 namespace WinterProofs.C14
-open Model.Parallel Model.Fft Finset
+open Model.Parallel Finset
+open Model.Fft (brev permuteIndex isPow2)
 
 /-! ### index arithmetic -/
 
